@@ -72,7 +72,11 @@ theorem toLowerRune_eq_nl (x : Nat) (h : toLowerRune x = 10) : x = 10 := by
         · omega
         · split at h
           · omega
-          · exact h
+          · split at h
+            · omega
+            · split at h
+              · omega
+              · exact h
 
 theorem lit_prefix_cs (rs s : List Nat) (i : Nat) (hj : i + rs.length ≤ s.length)
     (h : ∀ k, k < rs.length → s.getD (i + k) 0 = rs.getD k 0) : rs.isPrefixOf (s.drop i) = true := by
